@@ -5,9 +5,35 @@
 From ASV Require Export Base.
 From ASV.Gen Require Import Tables_gen.
 
-(* a component: label (index into c14_labels), KS subtype (0 none, 1 Trans-AT-KS, 2 Iterative-KS,
-   3 any other), identity (index of the domain in the input), query_start *)
-Record comp := mkComp { lab : Z; sub : Z; cid : Z; qstart : Z }.
+(* a subtype hit: an HMMResult stored inside another one (HMMResult._internal_hits), as
+   domain_identification.find_subtypes attaches them: code of its hit_id and its own internal hits.
+   Codes of the profile names: 1 Trans-AT-KS, 2 Iterative-KS, every other name its own code > 2
+   (harness/c14.py SUBNAMES); the state machine compares with the first two only *)
+Inductive hit : Type := Hit (hid : Z) (inner : list hit).
+Definition S_Trans_AT_KS := 1.
+Definition S_Iterative_KS := 2.
+
+(* a component: label (index into c14_labels), the subtype hits of its domain (domain.internal_hits, in
+   the order in which they were attached), identity (index of the domain in the input), query_start *)
+Record comp := mkComp { lab : Z; sub : list hit; cid : Z; qstart : Z }.
+
+(* HMMResult.detailed_names without its first element (the hit's own name):
+     hits = self._internal_hits
+     while len(hits) == 1: names.append(hits[0].hit_id); hits = hits[0]._internal_hits
+   one name per depth, stopping at the first depth with no hit or with SEVERAL hits *)
+Fixpoint names_from (h : hit) : list Z :=
+  match h with
+  | Hit i hs => i :: match hs with [x] => names_from x | _ => [] end
+  end.
+Definition detailed_tail (hs : list hit) : list Z := match hs with [x] => names_from x | _ => [] end.
+(* Component.subtypes: domain.detailed_names[1:] *)
+Definition subtypes (c : comp) : list Z := detailed_tail (sub c).
+(* Component.subtype: None if len(detailed_names) < 2 else detailed_names[1] *)
+Definition subtype (c : comp) : option Z :=
+  match subtypes c with [] => None | s :: _ => Some s end.
+(* subtype == "<name>" *)
+Definition subtype_is (c : comp) (k : Z) : bool :=
+  match subtype c with Some s => s =? k | None => false end.
 
 Definition zmem (x : Z) (l : list Z) : bool := existsb (Z.eqb x) l.
 
@@ -50,12 +76,12 @@ Definition is_trans_at (m : module) : bool :=
   match m_starter m with
   | Some s =>
     if is_pks m && negb (isSome (m_loader m)) then
-      (sub s =? 1) || existsb (fun c => lab c =? c14_L_Trans_AT_docking) (m_others m)
+      subtype_is s S_Trans_AT_KS || existsb (fun c => lab c =? c14_L_Trans_AT_docking) (m_others m)
     else false
   | None => false
   end.
 Definition is_iterative (m : module) : bool :=
-  match m_starter m with Some s => sub s =? 2 | None => false end.
+  match m_starter m with Some s => subtype_is s S_Iterative_KS | None => false end.
 
 (* "list(case) == upcoming[:len(case)]" for some registered case; returns the longest such length *)
 Fixpoint zlist_eqb (a b : list Z) : bool :=
@@ -243,11 +269,22 @@ Definition cnt (f : comp -> bool) (cs : list comp) : nat := length (filter f cs)
 Fixpoint after_first (f : comp -> bool) (cs : list comp) : list comp :=
   match cs with [] => [] | c :: r => if f c then r else after_first f r end.
 
-(* trans-AT as far as the components say: PKS, a starter but no loader, and the starter is a
-   Trans-AT-KS or a Trans-AT docking domain is present *)
+(* the subtype of a component as the property reads it, stated on the hits themselves (not through
+   detailed_names): the name of its ONLY first-level subtype hit; a domain without subtype hits or with
+   several of them (an ambiguous call, whatever their names and order) has no subtype *)
+Definition spec_subtype (c : comp) : option Z :=
+  match sub c with [Hit i _] => Some i | _ => None end.
+(* an unambiguous Trans-AT-KS *)
+Definition c_tat (c : comp) : bool :=
+  match sub c with [Hit i _] => i =? S_Trans_AT_KS | _ => false end.
+Definition c_iter (c : comp) : bool :=
+  match sub c with [Hit i _] => i =? S_Iterative_KS | _ => false end.
+
+(* trans-AT as far as the components say: PKS, a starter but no loader, and the starter is an
+   unambiguous Trans-AT-KS or a Trans-AT docking domain is present *)
 Definition spec_trans_at (cs : list comp) : bool :=
   existsb c_pks cs && negb (existsb c_loader cs) &&
-  match find c_starter cs with Some s => (sub s =? 1) || existsb c_atd cs | None => false end.
+  match find c_starter cs with Some s => c_tat s || existsb c_atd cs | None => false end.
 
 (* an explicit starter only in front *)
 Definition L_starter (cs : list comp) : bool := forallb (fun c => negb (c_xstarter c)) (tl cs).
@@ -314,10 +351,23 @@ Definition complete_spec (m : module) : bool :=
    && negb (same_comp (m_starter m) (m_loader m) && negb (m_first m)))
   || (spec_trans_at (m_comps m) && isSome (m_cp m)).
 
+(* what is observed of a module besides its slots: the seven flags, then for every component the code of
+   Component.subtype (0 for None) and len(Component.subtypes) *)
+Definition opt_code (o : option Z) : Z := match o with Some k => k | None => 0 end.
+Definition sub_entry (c : comp) : list Z := [opt_code (subtype c); zlen (subtypes c)].
 Definition flags_of (m : module) : list Z :=
   eBool (is_complete m) ++ eBool (is_trans_at m) ++ eBool (is_pks m)
   ++ eBool (is_nrps m) ++ eBool (is_starter_module m) ++ eBool (is_termination_module m)
-  ++ eBool (is_iterative m).
+  ++ eBool (is_iterative m) ++ eList sub_entry (m_comps m).
+(* the reported subtype of every component is the name of its only first-level subtype hit *)
+Fixpoint subs_reported_ok (cs : list comp) (l : list Z) : bool :=
+  match cs, l with
+  | [], [] => true
+  | c :: r, k :: _ :: l' => (k =? opt_code (spec_subtype c)) && subs_reported_ok r l'
+  | _, _ => false
+  end.
+Definition iterative_spec (cs : list comp) : bool :=
+  match find c_starter cs with Some s => c_iter s | None => false end.
 
 (* a module as decoded from the implementation's output, with its reported flags *)
 Definition spec_module_gen (strict : bool) (mf : module * list Z) : bool :=
@@ -332,6 +382,11 @@ Definition spec_module_gen (strict : bool) (mf : module * list Z) : bool :=
   && match fl with
      | complete :: trans_at :: _ =>
        (complete =? (if complete_spec m then 1 else 0)) && (trans_at =? (if spec_trans_at cs then 1 else 0))
+     | _ => false
+     end
+  && match fl with
+     | _ :: _ :: _ :: _ :: _ :: _ :: iter :: _ :: subs =>
+       (iter =? (if iterative_spec cs then 1 else 0)) && subs_reported_ok cs subs
      | _ => false
      end.
 
@@ -350,17 +405,34 @@ Definition spec_build_gen (strict : bool) (ds : list comp) (ms : list (module * 
 Definition spec_build := spec_build_gen true.
 
 (* ---------- encoding ---------- *)
+(* a component: label, identity, query_start, then its subtype hits as a forest: count, and per hit
+   its code followed by the forest of its own internal hits *)
+Fixpoint dHit (fuel : nat) : dec hit := fun l =>
+  match fuel with
+  | O => None
+  | S f => match l with
+           | i :: r => match dList (dHit f) r with
+                       | Some (hs, r') => Some (Hit i hs, r')
+                       | None => None
+                       end
+           | [] => None
+           end
+  end.
 Definition dComp : dec comp := fun l =>
-  match l with a :: b :: c :: d :: r => Some (mkComp a b c d, r) | _ => None end.
+  match l with
+  | a :: c :: d :: r => match dList (dHit (length r)) r with
+                        | Some (hs, r') => Some (mkComp a hs c d, r')
+                        | None => None
+                        end
+  | _ => None
+  end.
 
 Definition eOptComp (o : option comp) : list Z := match o with Some c => [cid c] | None => [-1] end.
 Definition eIds (l : list comp) : list Z := eList (fun c => [cid c]) l.
 Definition eModule (m : module) : list Z :=
   eIds (m_comps m) ++ eOptComp (m_starter m) ++ eOptComp (m_loader m) ++ eOptComp (m_cp m)
   ++ eOptComp (m_end m) ++ eIds (m_mods m) ++ eIds (m_others m)
-  ++ eBool (m_first m) ++ eBool (is_complete m) ++ eBool (is_trans_at m) ++ eBool (is_pks m)
-  ++ eBool (is_nrps m) ++ eBool (is_starter_module m) ++ eBool (is_termination_module m)
-  ++ eBool (is_iterative m).
+  ++ eBool (m_first m) ++ flags_of m.
 Definition eModules (ms : list module) : list Z := eList eModule ms.
 
 (* decoding of the implementation's modules (component ids refer to the input domains) *)
@@ -390,8 +462,13 @@ Definition dModule (ds : list comp) : dec (module * list Z) := fun l =>
   match dIds ds l5 with Some (mods, l6) =>
   match dIds ds l6 with Some (oth, l7) =>
   match l7 with
-  | f :: a :: b :: c :: d :: e :: g :: h :: r =>
-    Some ((mkModule cs st lo mods cp en oth (negb (f =? 0)) 0, [a; b; c; d; e; g; h]), r)
+  | f :: a :: b :: c :: d :: e :: g :: h :: l8 =>
+    match dList (dPair dZ dZ) l8 with
+    | Some (subs, r) =>
+      Some ((mkModule cs st lo mods cp en oth (negb (f =? 0)) 0,
+             [a; b; c; d; e; g; h] ++ eList (fun p : Z * Z => [fst p; snd p]) subs), r)
+    | None => None
+    end
   | _ => None
   end
   | None => None end | None => None end | None => None end | None => None end
@@ -466,6 +543,11 @@ Definition diag_module (mf : module * list Z) : list Z :=
      match fl with
      | complete :: trans_at :: _ =>
        (complete =? (if complete_spec m then 1 else 0)) && (trans_at =? (if spec_trans_at cs then 1 else 0))
+     | _ => false
+     end;
+     match fl with
+     | _ :: _ :: _ :: _ :: _ :: _ :: iter :: _ :: subs =>
+       (iter =? (if iterative_spec cs then 1 else 0)) && subs_reported_ok cs subs
      | _ => false
      end].
 Fixpoint first_bad (i : Z) (ms : list (module * list Z)) : list Z :=
